@@ -31,6 +31,10 @@ class Opts:
         self.min_ops = 3
         self.max_ops = 30
         self.nested = True          # nested targets / reads
+        self.whole = True           # definitions that read a container as a whole: F['tot'](container)
+        self.load = True            # Manager.load of a generated dump (repeated targets, overwrite on / off); needs maint
+        self.ft_sinks = True        # function tasks with an empty target set
+        self.ft_sink_one_in = 8
         self.inplace = True
         self.unreg = True
         self.setc = True
@@ -56,7 +60,7 @@ class Opts:
 
 
 DEFAULT_WEIGHTS = {"sete": 34, "setv": 30, "inplace": 10, "unreg": 5, "setc": 5,
-                   "regft": 4, "regknob": 4, "unregtask": 2, "maint": 3}
+                   "regft": 4, "regknob": 4, "unregtask": 2, "maint": 3, "load": 3}
 
 
 def init_strategy():
@@ -119,11 +123,16 @@ class Gen:
             ops += G.DIVS + G.CMPS[:2]
             builtins += ["round"] + (["floor", "ceil", "trunc"] if self.o.math_builtins else [])
         fn = {k: W.ast_loc(W.L("F", W.I(k))) for k in W.FN_NAMES} if self.o.calls else {}
+        conts = []
+        if self.o.whole and self.o.nested and self.o.calls:
+            conts = [W.ast_loc(c) for c in W.CONTAINERS if not any(W.related(c, f) for f in forbidden)]
+        if not conts:
+            fn.pop("tot", None)
         produced = set(m.written_by_task())
         weighted = cands + [k for k in cands if k in produced] * 3     # favour chains
         tg = G.TermGen([W.ast_loc(k) for k in weighted], [], fn, comp, lits=hist_numbers, ops=ops,
                        builtins=builtins, unary=["-", "+"], allow_eq=self.o.eq,
-                       allow_divmod=self.o.divmod, comp_one_in=self.o.comp_one_in)
+                       allow_divmod=self.o.divmod, comp_one_in=self.o.comp_one_in, cont_locs=conts)
         d = self.draw(st.integers(1, self.o.depth))
         ast = tg.term(self.draw, d)
         if self.o.risky_ops and self.draw(st.integers(0, 9)) == 0:
@@ -252,10 +261,15 @@ class Gen:
         if len(free_flat) < 2:
             return None
         targets = [self.draw(st.sampled_from(free_flat))]
-        if self.draw(st.integers(0, 3)) == 0:
+        shape = self.draw(st.integers(0, 7))
+        if self.o.ft_sinks and self.o.ft_sink_one_in < 8 and self.draw(st.integers(1, self.o.ft_sink_one_in)) == 1:
+            shape = 2
+        if shape in (0, 1):
             t2 = self.draw(st.sampled_from(free_flat))
             if t2 not in targets:
                 targets.append(t2)
+        elif shape == 2 and self.o.ft_sinks:
+            targets = []        # a pure side-effect task: it writes nothing, only the run log shows that it ran
         forbidden = set(targets)
         for t in targets:
             forbidden |= set(m.downstream_locs(t))
@@ -320,6 +334,48 @@ class Gen:
             kinds += ["loadself", "loadself"]
         return {"op": self.draw(st.sampled_from(kinds))}
 
+    def mk_load(self):
+        """a dump of 1..4 generated entries, a target possibly repeated, loaded with overwrite on or off"""
+        m = self.model
+        ft_t, kb_t, kb_s, _ = self.roles()
+        cands = [k for k in self.leaves() if k not in ft_t and k not in kb_t and k not in kb_s]
+        if not cands:
+            return None
+        overwrite = self.draw(st.sampled_from([True, True, False]))
+        entries = []
+        saved = list(m.defs.items())
+        try:
+            for _ in range(self.draw(st.integers(1, 4))):
+                if entries and self.draw(st.integers(0, 2)) == 0:
+                    t = W.tuple_loc(self.draw(st.sampled_from(entries))[0])
+                else:
+                    t = self.draw(st.sampled_from(cands))
+                ast = None
+                for attempt in range(4):
+                    a = self.term_for(t)
+                    if a is None or not loadable(a):
+                        continue
+                    if self.o.avoid_k1 and self.try_def(t, a):
+                        self.count_excl("K1: definition would close an ordering cycle through a shared container")
+                        continue
+                    ast = a
+                    break
+                if ast is None:
+                    continue
+                entries.append([W.json_loc(t), ast])
+                if t in m.defs:
+                    if overwrite:
+                        m.defs.pop(t)
+                        m.defs[t] = ast
+                else:
+                    m.defs[t] = ast
+        finally:
+            m.defs.clear()
+            m.defs.update(saved)
+        if not entries:
+            return None
+        return {"op": "load", "entries": entries, "overwrite": overwrite}
+
     # ---- main loop
     def step(self, kinds=None):
         w = dict(DEFAULT_WEIGHTS if self.o.weights is None else self.o.weights)
@@ -337,6 +393,8 @@ class Gen:
             w.pop("unregtask", None)
         if not self.o.maint:
             w.pop("maint", None)
+        if not (self.o.load and self.o.maint):
+            w.pop("load", None)
         if kinds is not None:
             w = {k: v for k, v in w.items() if k in kinds}
         bag = []
